@@ -1,7 +1,7 @@
 /-
 Props/C14b.lean — further property theorems for C14 (over_time), extending
 Props/C14.lean.  ONLY property statements and non-vacuity examples; proofs in
-Lemmas/C14FullRow.lean, C14Full.lean, C14Full2.lean (T4b), C14Stale.lean (T4c),
+Lemmas/C14FullRow.lean, C14Full.lean, C14Full2.lean, C14FullIndep.lean (T4b), C14Stale.lean (T4c),
 C14Perm.lean (T1b, T3b).
 
 * T4b  successive calls that pass estimates in every call — in particular the
@@ -10,7 +10,9 @@ C14Perm.lean (T1b, T3b).
        as a Python dict (`DictEq`: same keys, same columns).  The ORDER of the
        estimate columns differs from the single call (`full_estimates_exact_is_false`).
        The feedback hypothesis is dependency-aware (`FeedbackDep`): a requested item
-       may read the custom variables requested BEFORE it (instance `splitHypD_E2`).
+       may read the custom variables requested BEFORE it (instance `splitHypD_E2`);
+       it follows from the plain hypothesis of T4 extended to estimate columns
+       (`split_full_estimates_plain`, Lemmas/C14FullIndep.lean).
 * T4c  the boundary: later calls never recompute a column
        (`later_calls_keep_columns`); without a feedback hypothesis the split theorem
        is false (`split_without_feedback_is_false`, witness = a custom variable that a
@@ -34,6 +36,7 @@ variable requested AFTER it (there the split differs from the single call:
 -/
 import AurelVerif.Props.C14
 import AurelVerif.Lemmas.C14Full2
+import AurelVerif.Lemmas.C14FullIndep
 import AurelVerif.Lemmas.C14Stale
 import AurelVerif.Lemmas.C14Perm
 
@@ -81,6 +84,61 @@ theorem split_full_estimates (E : Env C) {t : Table C} {n : Nat} {tk : Name}
     ∃ a b, runCalls E t (vs.map (fun v => (v, ests))) = .ok a ∧
       overTime E t vs.flatten ests = .ok b ∧ DictEq a b :=
   split_full_estimates_lemma E vs hne ests H
+
+/-- **T4b under the plain feedback hypothesis.**  The hypotheses of `split_invariance` (`SplitHyp`,
+with `FeedbackOK`: no item reads a computed column), the feedback hypothesis extended to
+estimate columns (`FeedbackOKE`) and the three conditions on the estimate column names
+imply `SplitHypD`: T4b applies wherever T4 does. -/
+theorem split_full_estimates_plain (E : Env C) {t : Table C} {n : Nat} {tk : Name}
+    (vs : List (List Req)) (hne : vs ≠ []) (ests : List Req) (H : SplitHyp E t n tk vs.flatten ests)
+    (fbE : ∀ r ∈ rowsOf t n, FeedbackOKE E (cleanVars E t vs.flatten) (allEsts E ests) (callSk E t vs.flatten) r)
+    (est_names : ∀ e ∈ allEsts E ests, ∀ e' ∈ allEsts E ests, e.key = e'.key → e = e')
+    (est_fresh : ∀ e ∈ allEsts E ests, ∀ s ∈ callSk E t vs.flatten,
+      estKey s e.key ∉ (cleanVars E t vs.flatten).map CReq.key)
+    (est_inj : ∀ e ∈ allEsts E ests, ∀ e' ∈ allEsts E ests, ∀ s ∈ callSk E t vs.flatten,
+      ∀ s' ∈ callSk E t vs.flatten, estKey s e.key = estKey s' e'.key → s = s' ∧ e.key = e'.key) :
+    ∃ a b, runCalls E t (vs.map (fun v => (v, ests))) = .ok a ∧
+      overTime E t vs.flatten ests = .ok b ∧ DictEq a b :=
+  split_full_estimates_lemma E vs hne ests
+    (SplitHypD.of_plain H.wf H.pos H.tk H.sw H.nodup H.notemp fbE H.rank_t H.rank_v H.rank_e
+      est_names est_fresh est_inj)
+
+/-- `split_full_estimates_plain` on the instance of `split_invariance` (`splitHyp_t1`): a call
+without variables, then the variable, both with the estimates list -/
+example : ∃ a b, runCalls E1 t1 [([], [.name "max"]), ([.name "K"], [.name "max"])] = .ok a ∧
+    overTime E1 t1 [.name "K"] [.name "max"] = .ok b ∧ DictEq a b := by
+  have hcl : cleanVars E1 t1 [.name "K"] = [.name "K"] := by decide +kernel
+  have hae : allEsts E1 [.name "max"] = [.name "max"] := by decide +kernel
+  have hsk : callSk E1 t1 [.name "K"] = ["a", "K"] := by decide +kernel
+  refine split_full_estimates_plain E1 [[], [.name "K"]] (by simp) [.name "max"] splitHyp_t1 ?_ ?_ ?_ ?_
+  · intro r hr x _ c hc
+    have hc' : c ∈ cleanVars E1 t1 [.name "K"] := hc
+    rw [hcl] at hc'
+    simp only [List.mem_singleton] at hc'
+    subst hc'
+    have ha : "a" ∈ keys r := by
+      rw [rows_t1] at hr
+      simp only [List.mem_cons, List.mem_nil_iff, or_false] at hr
+      rcases hr with rfl | rfl | rfl <;> decide
+    simp only [CReq.val, E1, get?_append_left ha]
+  · rw [hae]; decide
+  · have h : ∀ e ∈ [CReq.name "max"], ∀ s ∈ ["a", "K"], estKey s e.key ∉ [CReq.name "K"].map CReq.key := by
+      decide +kernel
+    intro e he s hs
+    have hs' : s ∈ callSk E1 t1 [.name "K"] := hs
+    have hcl' : (cleanVars E1 t1 [[], [Req.name "K"]].flatten) = [.name "K"] := hcl
+    rw [hcl']
+    rw [hae] at he
+    rw [hsk] at hs'
+    exact h e he s hs'
+  · have h : ∀ e ∈ [CReq.name "max"], ∀ e' ∈ [CReq.name "max"], ∀ s ∈ ["a", "K"], ∀ s' ∈ ["a", "K"],
+        estKey s e.key = estKey s' e'.key → s = s' ∧ e.key = e'.key := by decide +kernel
+    intro e he e' he' s hs s' hs'
+    have hs1 : s ∈ callSk E1 t1 [.name "K"] := hs
+    have hs2 : s' ∈ callSk E1 t1 [.name "K"] := hs'
+    rw [hae] at he he'
+    rw [hsk] at hs1 hs2
+    exact h e he e' he' s hs1 s' hs2
 
 /-- the hypotheses of T4b are satisfiable: a built-in, a custom variable and an estimator
 on the three-step table `t1` -/
